@@ -213,19 +213,32 @@ func (p *Policy) Assemble() ([]bpf.Instruction, error) {
 		p.arch = arch
 	}
 
-	// Build the syscall filters.
-	var instructions []bpf.Instruction
+	// Build the syscall filters. The groups are checked in order and the first
+	// group that matches decides. If no group matches, the default action is returned.
+	prog := NewProgram()
+	actions := make([]Label, 0, len(p.Syscalls))
 	for _, group := range p.Syscalls {
 		if group.arch == nil {
 			group.arch = p.arch
 		}
 
-		groupInsts, err := group.Assemble(p.DefaultAction)
+		action, err := group.assemble(&prog)
 		if err != nil {
 			return nil, err
 		}
+		actions = append(actions, action)
+	}
 
-		instructions = append(instructions, groupInsts...)
+	prog.Ret(p.DefaultAction)
+
+	for i, group := range p.Syscalls {
+		prog.SetLabel(actions[i])
+		prog.Ret(group.Action)
+	}
+
+	instructions, err := prog.Assemble()
+	if err != nil {
+		return nil, err
 	}
 
 	// Filter out x32 to prevent bypassing blacklists by using the 32-bit ABI.
@@ -241,8 +254,8 @@ func (p *Policy) Assemble() ([]bpf.Instruction, error) {
 
 	program = append(program, bpf.LoadAbsolute{Off: archOffset, Size: sizeOfUint32})
 
-	// If the loaded arch ID is not equal p.arch.ID, jump to the final Ret instruction.
-	jumpN := len(x32Filter) + len(instructions) - 1
+	// If the loaded arch ID is not equal p.arch.ID, jump to the Ret instruction of the default action.
+	jumpN := len(x32Filter) + len(instructions) - len(actions)
 	if jumpN <= 255 {
 		program = append(program, bpf.JumpIf{Cond: bpf.JumpNotEqual, Val: uint32(p.arch.ID), SkipTrue: uint8(jumpN)})
 	} else {
@@ -351,17 +364,11 @@ func (g *SyscallGroup) Assemble(defaultAction Action) ([]bpf.Instruction, error)
 		return nil, nil
 	}
 
-	// Validate the syscalls.
-	syscalls, err := g.toSyscallsWithConditions()
-	if err != nil {
-		return nil, err
-	}
-
 	p := NewProgram()
 
-	action := p.NewLabel()
-	for _, syscall := range syscalls {
-		syscall.Assemble(&p, action)
+	action, err := g.assemble(&p)
+	if err != nil {
+		return nil, err
 	}
 
 	p.Ret(defaultAction)
@@ -370,6 +377,22 @@ func (g *SyscallGroup) Assemble(defaultAction Action) ([]bpf.Instruction, error)
 	p.Ret(g.Action)
 
 	return p.Assemble()
+}
+
+// assemble adds the checks of the group to the program. They jump to the
+// returned label if the syscall matches and continue behind the checks if not.
+func (g *SyscallGroup) assemble(p *Program) (Label, error) {
+	// Validate the syscalls.
+	syscalls, err := g.toSyscallsWithConditions()
+	if err != nil {
+		return 0, err
+	}
+
+	action := p.NewLabel()
+	for _, syscall := range syscalls {
+		syscall.Assemble(p, action)
+	}
+	return action, nil
 }
 
 func (s SyscallWithConditions) Assemble(p *Program, action Label) {
